@@ -679,7 +679,7 @@ func (g *gctx) stmt() (*Stmt, bool) {
 			T := Array(g.arrayLen(), g.pickType("elemtype"))
 			name := g.fresh()
 			g.top()[name] = &varInfo{T: T}
-			return &Stmt{K: SVar, Name: name, T: &T}, false
+			return g.declAggregate(name, T), false
 		}
 		nv := c[g.intn(0, len(c)-1, "arr")]
 		e, _ := g.expr(*nv.v.T.E, true)
@@ -697,7 +697,7 @@ func (g *gctx) stmt() (*Stmt, bool) {
 			T := Type{K: KStruct, S: sd.Name}
 			name := g.fresh()
 			g.top()[name] = &varInfo{T: T}
-			return &Stmt{K: SVar, Name: name, T: &T}, false
+			return g.declAggregate(name, T), false
 		}
 		nv := c[g.intn(0, len(c)-1, "struct")]
 		sd := g.prog.Struct(nv.v.T.S)
@@ -733,6 +733,83 @@ func (g *gctx) stmt() (*Stmt, bool) {
 	default:
 		return g.stmt()
 	}
+}
+
+// declAggregate declares a local array or struct variable: zero valued, or
+// (two times in five, outside loop bodies) initialised with a constant
+// composite literal whose elements are literals of the element / field types.
+// Several such literals of one type with different values in one program are
+// the point: the compiler keeps constants in a table keyed by their name.
+func (g *gctx) declAggregate(name string, T Type) *Stmt {
+	scalarElems := true
+	var ets []Type
+	var names []string
+	switch T.K {
+	case KArray:
+		for i := 0; i < T.N; i++ {
+			ets = append(ets, *T.E)
+		}
+	case KStruct:
+		for _, f := range g.prog.Struct(T.S).Fields {
+			ets = append(ets, f.T)
+			names = append(names, f.Name)
+		}
+	}
+	for _, et := range ets {
+		if !et.IsInt() {
+			scalarElems = false
+		}
+	}
+	if !scalarElems || len(ets) == 0 || len(g.loops) > 0 || !g.chance(40, "compositelit") {
+		return &Stmt{K: SVar, Name: name, T: &T}
+	}
+	e := &Expr{Op: EComposite, T: T}
+	saved := g.prog.Consts
+	g.prog.Consts = nil // plain literals only
+	for _, et := range ets {
+		e.A = append(e.A, g.literal(et))
+	}
+	g.prog.Consts = saved
+	if T.K == KStruct && g.chance(70, "keyed") {
+		e.Name = strings.Join(names, ",")
+	}
+	decl := func(name string, e *Expr) *Stmt {
+		if g.chance(50, "compositevar") {
+			return &Stmt{K: SVar, Name: name, T: &T, E: e}
+		}
+		return &Stmt{K: SDefine, Name: name, E: e}
+	}
+	first := decl(name, e)
+	if g.chance(60, "compositetwin") {
+		// A second variable of the same type with another literal, and a
+		// value that reads one member of each.
+		e2 := &Expr{Op: EComposite, T: T, Name: e.Name}
+		g.prog.Consts = nil
+		for _, et := range ets {
+			e2.A = append(e2.A, g.literal(et))
+		}
+		g.prog.Consts = saved
+		twin := g.fresh()
+		g.top()[twin] = &varInfo{T: T}
+		g.pending = append(g.pending, decl(twin, e2))
+		i := g.intn(0, len(ets)-1, "twinmember")
+		member := func(v string) *Expr {
+			av := &Expr{Op: EVar, T: T, Name: v}
+			if T.K == KArray {
+				return &Expr{Op: EIndex, T: ets[i], Idx: i, A: []*Expr{av}}
+			}
+			return &Expr{Op: EField, T: ets[i], Name: names[i], A: []*Expr{av}}
+		}
+		t := g.fresh()
+		et := &Expr{Op: EBin, T: ets[i], Name: "^", A: []*Expr{
+			{Op: EBin, T: ets[i], Name: "+", A: []*Expr{g.dynSource(ets[i]), member(name)}}, member(twin)}}
+		g.top()[t] = &varInfo{T: ets[i], Dyn: true}
+		g.pending = append(g.pending, &Stmt{K: SDefine, Name: t, E: et})
+		if g.fn.Name == "main" && g.ifDepth%100 == 0 {
+			g.sink = append(g.sink, named{t, g.top()[t]})
+		}
+	}
+	return first
 }
 
 // structIdiom emits
@@ -1222,7 +1299,7 @@ func (g *gctx) exprDyn(e *Expr) (dyn, ok bool) {
 		return false, true
 	}
 	switch e.Op {
-	case ELit, ELoopVar:
+	case ELit, ELoopVar, EComposite:
 		return false, true
 	case EVar:
 		v := g.lookup(e.Name)
